@@ -3,6 +3,7 @@ package replay
 import (
 	"bytes"
 	"fmt"
+	"io"
 	"math/rand"
 
 	"github.com/ipld/go-ipld-prime/codec/dagcbor"
@@ -144,6 +145,16 @@ func shuffleOrder(v model.Value, rng *rand.Rand) model.Value {
 	return w
 }
 
+// {"a": 1}
+var cborProbe = func() datamodel.Node {
+	nb := basicnode.Prototype.Map.NewBuilder()
+	ma, _ := nb.BeginMap(1)
+	va, _ := ma.AssembleEntry("a")
+	va.AssignInt(1)
+	ma.Finish()
+	return nb.Build()
+}()
+
 // ReplayCborEnc checks one value of DagCborEnc against dagcbor.Encode / EncodedLength / Decode.
 func ReplayCborEnc(cs *EncCase, seed int64, limit int) (*run.Finding, int) {
 	conc := model.Conc{}
@@ -201,6 +212,15 @@ func ReplayCborEnc(cs *EncCase, seed int64, limit int) (*run.Finding, int) {
 				}
 				checks++
 			}
+		}
+	}
+	// ... and a function of the value alone also right after an Encode that failed
+	if n, err := conc.BuildImpl("basic", cs.V); err == nil {
+		f, k := encodeAfterFaults("dagcbor.Encode[basic]", func(n datamodel.Node, w io.Writer) error { return dagcbor.Encode(n, w) }, n, want,
+			[]encProbe{{cborProbe, []byte{0xa1, 0x61, 0x61, 0x01}}}, rng, 12, fmt.Sprint(cs.V))
+		checks += k
+		if f != nil {
+			return f, checks
 		}
 	}
 	// decode the canonical bytes: must yield the value with maps in canonical order
